@@ -61,13 +61,17 @@ def load_tasks():
 def _frontier(args):
     mod, name, depth = args
     from pyvc.interp import Interp
-    m = importlib.import_module(mod)
-    task = [t for t in m.TASKS if t.name == name][0]
-    it = Interp()
-    h = task.setup(it)
-    if isinstance(h, tuple) and h[0] == "pair":
-        h = h[1]
-    return it.frontier(h, depth)
+    try:
+        m = importlib.import_module(mod)
+        task = [t for t in m.TASKS if t.name == name][0]
+        it = Interp()
+        h = task.setup(it)
+        if isinstance(h, tuple) and h[0] == "pair":
+            h = h[1]
+        return it.frontier(h, depth)
+    except Exception:
+        # the task itself will crash the same way and be reported as a checker crash (exit 3), never as a violation
+        return [None]
 
 
 def _run_task(args):
